@@ -15,6 +15,8 @@ import Mimic.Dispatch
 import Mimic.Variables
 import Mimic.Extracted.Variables
 import Mimic.Charset
+import Mimic.Catalog
+import Mimic.Extracted.Catalog
 import Mimic.Extracted.Session
 import Mimic.Extracted.Charset
 /-! Line-protocol driver pieces: one `handle` per domain. Unknown input is answered `bad-op`, never defaulted. -/
@@ -53,6 +55,7 @@ structure St where
   authUsers : List (String × Mimic.Auth.User) := []
   conn : Mimic.Conn.S := Mimic.Conn.init
   vars : Mimic.Variables.Store := []
+  catalog : List Mimic.Catalog.Col := []
 
 def ctl (st : St) : List String → St × String
   | ["new", sid] => match sid.toNat? with
@@ -664,6 +667,54 @@ def csOps (_st : St) : List String → String
       | none => "bad-op"
   | _ => "bad-op"
 
+/-! catalog -/
+
+/-- a mapping as a token stream: `c:<catalog>` `d:<db>` `t:<table>` `k:<column>:<type>` -/
+def buildMapping (toks : List String) : Option Mimic.Catalog.Mapping :=
+  let step := fun (acc : Option Mimic.Catalog.Mapping) (tok : String) =>
+    match acc with
+    | none => none
+    | some m =>
+      if tok.startsWith "c:" then some (m ++ [((tok.drop 2).toString, [])])
+      else if tok.startsWith "d:" then
+        match m.reverse with
+        | (c, dbs) :: rest => some ((( c, dbs ++ [((tok.drop 2).toString, [])]) :: rest).reverse)
+        | [] => none
+      else if tok.startsWith "t:" then
+        match m.reverse with
+        | (c, dbs) :: rest => match dbs.reverse with
+          | (d, ts) :: drest => some (((c, ((d, ts ++ [((tok.drop 2).toString, [])]) :: drest).reverse) :: rest).reverse)
+          | [] => none
+        | [] => none
+      else if tok.startsWith "k:" then
+        match (tok.drop 2).toString.splitOn ":" with
+        | [n, ty] =>
+          match m.reverse with
+          | (c, dbs) :: rest => match dbs.reverse with
+            | (d, ts) :: drest => match ts.reverse with
+              | (t, cs) :: trest => some (((c, ((d, ((t, cs ++ [(n, ty)]) :: trest).reverse) :: drest).reverse) :: rest).reverse)
+              | [] => none
+            | [] => none
+          | [] => none
+        | _ => none
+      else none
+  toks.foldl step (some [])
+
+def dashOpt (s : String) : Option String := if s = "-" then none else some s
+
+def catOps (st : St) : List String → St × String
+  | "load" :: toks => match buildMapping toks with
+      | some m => ({ st with catalog := Mimic.Catalog.flatten m ++ Mimic.Extracted.Catalog.builtin }, s!"ok {(Mimic.Catalog.flatten m).length}")
+      | none => (st, "bad-op")
+  | ["dbs", pat] => (st, ",".intercalate (Mimic.Catalog.showDatabases st.catalog (dashOpt pat)))
+  | ["tables", db, cur, pat] => (st, match Mimic.Catalog.showTables st.catalog (dashOpt db) (dashOpt cur) (dashOpt pat) with
+      | some l => ",".intercalate l
+      | none => "err:nodb")
+  | ["columns", tbl, db, cur, pat] => (st, ",".intercalate ((Mimic.Catalog.showColumns st.catalog tbl (dashOpt db) (dashOpt cur) (dashOpt pat)).map (fun p => p.1 ++ ":" ++ p.2)))
+  | ["like", pat, s] => (st, if Mimic.Like.likeS (if pat = "-" then "" else pat) (if s = "-" then "" else s) then "1" else "0")
+  | ["ordinals", tbl, db] => (st, ",".intercalate (((Mimic.Catalog.withOrdinals [] st.catalog).filter (fun p => p.1.tbl == tbl && p.1.db == db)).map (fun p => s!"{p.1.name}:{p.2}")))
+  | _ => (st, "bad-op")
+
 def handle (st : St) (line : String) : St × String :=
   match words line with
   | "ctl" :: rest => ctl st rest
@@ -679,6 +730,7 @@ def handle (st : St) (line : String) : St × String :=
   | "dsp" :: rest => (st, dsp st rest)
   | "var" :: rest => varOps st rest
   | "cs" :: rest => (st, csOps st rest)
+  | "cat" :: rest => catOps st rest
   | _ => (st, "bad-op")
 
 end Mimic.Drv
